@@ -58,11 +58,12 @@ theorem specH0_length : Spec.H0.length = 8 := by decide +kernel
 
 /-! ### the streaming invariant -/
 
-/-- `p` has absorbed the message `m` -/
+/-- `p` has absorbed the message `m` (of any length: `count` is the `uint64` of the code and holds the length modulo 2^64;
+the buffer position `count & 0x3F` is still `m.length % 64`, because 64 divides 2^64) -/
 def Inv (m : List UInt8) (p : Sha) : Prop :=
   ∃ full tail rest, m = full ++ tail ∧ full.length % 64 = 0 ∧ p.buffer = tail ++ rest ∧
     tail.length + rest.length = 64 ∧ 0 < rest.length ∧
-    p.state = Spec.hashBlocks Spec.H0 full ∧ p.count.toNat = m.length ∧ p.ok = true
+    p.state = Spec.hashBlocks Spec.H0 full ∧ p.count.toNat = m.length % 2 ^ 64 ∧ p.ok = true
 
 theorem set_mid {α : Type} (xs : List α) (y b : α) (ys : List α) :
     (xs ++ y :: ys).set xs.length b = (xs ++ [b]) ++ ys := by
@@ -88,12 +89,12 @@ theorem writeByteBlock_eq (htr : TransformOK) (p : Sha) (hs : p.state.length = 8
   simp only [data32ok_eq _ hb, Bool.and_true, data32_eq]
 
 theorem updateLoop_inv (htr : TransformOK) : ∀ (data m : List UInt8) (p : Sha), Inv m p →
-    m.length + data.length < 2 ^ 64 → Inv (m ++ data) (updateLoop data (m.length % 64) p) := by
+    Inv (m ++ data) (updateLoop data (m.length % 64) p) := by
   intro data
   induction data with
-  | nil => intro m p h _; simpa [updateLoop] using h
+  | nil => intro m p h; simpa [updateLoop] using h
   | cons b data ih =>
-    intro m p h hlen
+    intro m p h
     obtain ⟨full, tail, rest, hm, hfull, hbuf, hsz, hrest, hst, hcnt, hok⟩ := h
     have hcur : m.length % 64 = tail.length := by
       have : m.length = full.length + tail.length := by rw [hm]; simp
@@ -102,15 +103,12 @@ theorem updateLoop_inv (htr : TransformOK) : ∀ (data m : List UInt8) (p : Sha)
       cases rest with
       | nil => simp at hrest
       | cons r rest' => exact ⟨r, rest', rfl⟩
-    have hcount : (p.count + 1).toNat = m.length + 1 := by
+    have hcount : (p.count + 1).toNat = (m.length + 1) % 2 ^ 64 := by
       rw [UInt64.toNat_add, hcnt]
       have : (1 : UInt64).toNat = 1 := by decide
       rw [this]
-      simp only [List.length_cons] at hlen
       omega
     have hmb : m ++ b :: data = (m ++ [b]) ++ data := by simp
-    have hlen' : (m ++ [b]).length + data.length < 2 ^ 64 := by
-      simp only [List.length_cons, List.length_append, List.length_nil] at hlen ⊢; omega
     simp only [updateLoop, hcur, hbuf, wr_mid]
     simp only [List.length_cons] at hsz
     by_cases hc : tail.length + 1 = 64
@@ -129,7 +127,7 @@ theorem updateLoop_inv (htr : TransformOK) : ∀ (data m : List UInt8) (p : Sha)
       have h0 : (m ++ [b]).length % 64 = 0 := by
         have : m.length = full.length + tail.length := by rw [hm]; simp
         simp only [List.length_append, List.length_cons, List.length_nil]; omega
-      have := ih (m ++ [b]) _ hI hlen'
+      have := ih (m ++ [b]) _ hI
       rw [h0] at this
       rw [hmb]; exact this
     · simp only [hc, if_false]
@@ -141,27 +139,25 @@ theorem updateLoop_inv (htr : TransformOK) : ∀ (data m : List UInt8) (p : Sha)
       have h1 : (m ++ [b]).length % 64 = tail.length + 1 := by
         have : m.length = full.length + tail.length := by rw [hm]; simp
         simp only [List.length_append, List.length_cons, List.length_nil]; omega
-      have := ih (m ++ [b]) _ hI hlen'
+      have := ih (m ++ [b]) _ hI
       rw [h1] at this
       rw [hmb]; exact this
 
-theorem update_inv (htr : TransformOK) (m data : List UInt8) (p : Sha) (h : Inv m p)
-    (hlen : m.length + data.length < 2 ^ 64) : Inv (m ++ data) (update p data) := by
-  have hc : p.count.toNat = m.length := by
+theorem update_inv (htr : TransformOK) (m data : List UInt8) (p : Sha) (h : Inv m p) : Inv (m ++ data) (update p data) := by
+  have hc : p.count.toNat = m.length % 2 ^ 64 := by
     obtain ⟨_, _, _, _, _, _, _, _, _, hcnt, _⟩ := h; exact hcnt
   unfold update
-  rw [bufferPos_eq, hc]
-  exact updateLoop_inv htr data m p h hlen
+  rw [bufferPos_eq, hc, show m.length % 2 ^ 64 % 64 = m.length % 64 from by omega]
+  exact updateLoop_inv htr data m p h
 
 theorem foldl_update_inv (htr : TransformOK) : ∀ (chunks : List (List UInt8)) (m : List UInt8) (p : Sha), Inv m p →
-    m.length + chunks.flatten.length < 2 ^ 64 → Inv (m ++ chunks.flatten) (chunks.foldl update p) := by
+    Inv (m ++ chunks.flatten) (chunks.foldl update p) := by
   intro chunks
   induction chunks with
-  | nil => intro m p h _; simpa using h
+  | nil => intro m p h; simpa using h
   | cons c cs ih =>
-    intro m p h hlen
-    simp only [List.flatten_cons, List.length_append] at hlen
-    have := ih (m ++ c) (update p c) (update_inv htr m c p h (by omega)) (by simp only [List.length_append]; omega)
+    intro m p h
+    have := ih (m ++ c) (update p c) (update_inv htr m c p h)
     simpa [List.append_assoc] using this
 
 end Nstd.Sha
